@@ -34,6 +34,8 @@ func runC05(c *core.Ctx) {
 	c.Clause("C05.5 candidate persists term+1 and its self vote before any vote request is sent")
 	h.selfVoteBeforeCampaign("C05.5 self-vote-first")
 	h.storageErrorsSurface("C05.6 storage-errors-surface", storageErrExempt)
+	h.openStorageLoads("C05.7 restart-loads", "term")
+	h.settersSkipJustified("C05.8 setter-skip-justified")
 }
 
 // setterPersistThenPublish: in setTerm / setVotedFor every store to
